@@ -362,6 +362,7 @@ OUTERS = [k for k in OUTER_KINDS if k != 'range']
 def finalize_via(outer: int, inner: int, n: int, t2l: bool, s2l: bool) -> bool:
     """
     pre: 0 <= outer < len(OUTERS) and 0 <= inner < len(INNER_KINDS) and allowed(inner, 'inners') and 0 <= n <= 1
+    pre: allowed(outer, 'outers')
     pre: buildable(pick(OUTERS, outer), pick(INNER_KINDS, inner), n)
     pre: not excluded(pick(OUTERS, outer), pick(INNER_KINDS, inner), n, t2l, s2l)
     pre: H.fresh(outer, inner, n, t2l, s2l)
@@ -520,7 +521,7 @@ def conditions(tier, seed):
 
     def add(name, func, bounds, timeout, **param):
         out.append({'name': name, 'func': func, 'timeout': timeout, 'param': param, 'bounds': bounds})
-    slen = 0 if q else 2
+    slen = 0 if q else 1
     quick_inner = [i for i, k in enumerate(INNER_KINDS) if k not in ('map', 'chain', 'islice', 'limited', 'deque')]
     for outer in OUTERS:
         if q:
@@ -531,7 +532,7 @@ def conditions(tier, seed):
         else:
             for lo, hi in ((0, 1), (2, 2), (3, 3)):
                 add('finalize_shape[%s,n%d-%d]' % (outer, lo, hi), 'finalize_shape',
-                    'outer %s with %d..%d children; child kind symbolic over %d kinds; symbolic int/str leaves (str len <= 2); '
+                    'outer %s with %d..%d children; child kind symbolic over %d kinds; symbolic int/str leaves (str len <= 1); '
                     't2l, s2l symbolic; statement `$v` -> #finalize' % (outer, lo, hi, len(INNER_KINDS)),
                     900, outer=outer, nlo=lo, nhi=hi, vias=[0], slen=slen)
     for via, what in ((1, 'YaqlInterface.__call__'), (2, 'YaqlInterface function stub')):
@@ -539,10 +540,10 @@ def conditions(tier, seed):
             add('finalize_via[%s]' % what, 'finalize_via', 'outer symbolic over %d kinds, 0..1 children of kind tuple, '
                 't2l, s2l symbolic; through %s' % (len(OUTERS), what), 300, via=via, inners=[INNER_KINDS.index('tuple')])
         else:
-            for g in range(0, len(INNER_KINDS), 6):
-                add('finalize_via[%s,%d]' % (what, g), 'finalize_via', 'outer symbolic over %d kinds, child symbolic over %r, '
-                    '0..1 children, t2l, s2l symbolic; through %s' % (len(OUTERS), INNER_KINDS[g:g + 6], what), 900,
-                    via=via, inners=list(range(g, min(g + 6, len(INNER_KINDS)))))
+            for oi, outer in enumerate(OUTERS):
+                add('finalize_via[%s,%s]' % (what, outer), 'finalize_via', 'outer %s, child symbolic over all %d kinds, '
+                    '0..1 children, t2l, s2l symbolic; through %s' % (outer, len(INNER_KINDS), what), 600,
+                    via=via, outers=[oi])
     if q:
         for outer in [k for i, k in enumerate(OUTERS) if (i + seed) % 10 == 0]:
             add('finalize_deep[%s]' % outer, 'finalize_deep',
@@ -575,7 +576,7 @@ def conditions(tier, seed):
             for via, what in ((0, 'engine("$").evaluate(data=doc)'), (1, 'YaqlInterface("$1", doc)')):
                 for mi, mk in enumerate(DOC_KINDS):
                     add('roundtrip[%s,%s,%s]' % (outer, mk, 'evaluate' if via == 0 else 'interface'), 'roundtrip',
-                        'host document %s [ %s [ inner [leaves] ], leaf ]; inner symbolic over %s; symbolic int/str(len<=2) leaves; '
+                        'host document %s [ %s [ inner [leaves] ], leaf ]; inner symbolic over %s; symbolic int/str(len<=1) leaves; '
                         't2l, s2l symbolic; via %s' % (outer, mk, ','.join(DOC_KINDS), what),
                         600, outer=outer, via=via, mids=[mi], inners=every, slen=slen)
     add('roundtrip_json', 'roundtrip_json', 'six JSON document skeletons with symbolic int/str(len<=3)/float/bool leaves, '
